@@ -16,8 +16,18 @@ impl GroupDeterminer {
     pub open spec fn parsed_ok<T>(&self, ts: Seq<Tok>) -> bool { !self.validate_parsed || valid_stream::<T>(ts) }
     #[verifier::external_body]
     pub fn check_input(&self, input: ParseStream<'_>) -> (r: bool) ensures r == self.matches(input), { unimplemented!() }
+}
+
+/// `proc_macro2::TokenTree` (only ever parsed and dropped / re-printed here)
+#[verifier::external_body]
+pub struct TokenTree { _p: () }
+impl Parse for TokenTree {}
+impl TokenTree { pub uninterp spec fn tt_toks(&self) -> Seq<Tok>; }
+impl ToTokens for TokenTree {
+    open spec fn toks(&self) -> Seq<Tok> { self.tt_toks() }
+    open spec fn tokenizable(&self) -> bool { true }
     #[verifier::external_body]
-    pub fn erase_input<'b>(&self, input: ParseStream<'b>) -> (r: syn::Result<ParseStream<'b>>) { unimplemented!() }
+    fn to_tokens(&self, output: &mut TokenStream) { unimplemented!() }
 }
 
 impl ParseBuffer {
@@ -55,3 +65,16 @@ pub open spec fn unit_end_ok<T>(d: GroupDeterminer, ts: Seq<Tok>, allow_empty: b
 }
 /// marker type that carries the lifted pieces of the free function `parse_until`
 pub struct ParseUntil { _p: () }
+
+impl ParseUntil {
+    /// call-out twin of `scan_step` for the WHOLE-function proof of `parse_until`: its verified contract MINUS the peek
+    /// clauses (weaker, hence sound to assume; across loop iterations the stream changes, so peeks have no meaning there)
+    #[verifier::external_body]
+    pub fn scan_step_w<'a, 'b, T: Parse>(input: ParseStream<'b>, group_determiners: &'a [GroupDeterminer], deferred_determiner: &'a GroupDeterminer,
+        allow_empty_parsed: bool, tokens: &TokenStream, deferred: bool, next: Option<&'a GroupDeterminer>) -> (r: syn::Result<(bool, bool, Option<&'a GroupDeterminer>)>)
+        ensures
+            r is Ok && !(r->Ok_0).0 ==> (r->Ok_0).2 == next,
+            r is Ok && (r->Ok_0).0 ==> (r->Ok_0).2 is Some,
+            r is Ok && (r->Ok_0).1 ==> (r->Ok_0).0 && (r->Ok_0).2 is Some && (r->Ok_0).2->0.comb() is Some,
+    { unimplemented!() }
+}
